@@ -50,11 +50,13 @@ def pBool (s : String) : Option Bool :=
   if s = "1" then some true else if s = "0" then some false else none
 
 /-- `-` = no address, else comma separated, `_` = empty slot; at most 32 -/
-def pAddrs (s : String) : Option (List (Option Addr)) :=
+def pAddrsMax (max : Nat) (s : String) : Option (List (Option Addr)) :=
   if s = "-" then some [] else
   let parts := s.splitOn ","
-  if parts.length > 32 then none else
+  if parts.length > max then none else
   parts.mapM fun p => if p = "_" then some none else (Addr.parse p).map some
+
+def pAddrs (s : String) : Option (List (Option Addr)) := pAddrsMax 32 s
 
 def padAddrs (l : List (Option Addr)) : AddrArray := l ++ List.replicate (32 - l.length) none
 
@@ -215,6 +217,27 @@ def stepOp (w : NWorld) (toks : List String) : Option (NWorld × String) :=
       | .err e => some (w, s!"err:{e.name}")
       | .panic _ => some (die w)
     | none => bad
+  | ["tok-gen", now, proto, expireS, id, timeout, addrs, ud, key] =>
+    match pU64 now, pU64 proto, pU64 expireS, pU64 id, pI32 timeout, pAddrsMax 40 addrs, pHexN 32 key with
+    | some now, some proto, some expireS, some id, some timeout, some addrs, some key =>
+      let ud? : Option Bytes := if ud = "-" then some (List.replicate 256 0) else pHexN 256 ud
+      match ud? with
+      | none => bad
+      | some ud =>
+        if addrs.any Option.isNone then bad else
+        let z32 : Bytes := List.replicate 32 0
+        match ConnectToken.generate aead (now * 1000) proto expireS id timeout (addrs.filterMap fun x => x) ud z32 z32
+                (List.replicate 24 0) key with
+        | .ok t =>
+          -- the private part opens under the key and carries the same fields
+          let consistent := match PrivateConnectToken.decode aead t.privateData proto t.expireTimestamp t.xnonce key with
+            | .ok p => p.clientId = id && p.timeoutSeconds = timeout && p.serverAddresses = t.serverAddresses &&
+                       p.userData = ud && p.clientToServerKey = t.clientToServerKey && p.serverToClientKey = t.serverToClientKey
+            | _ => false
+          some (w, s!"ok {t.clientId} {toHex t.versionInfo} {t.protocolId} {t.createTimestamp} {t.expireTimestamp} {t.timeoutSeconds} {showAddrs t.serverAddresses} consistent={bit consistent}")
+        | .err e => some (w, s!"err:{e.name}")
+        | .panic _ => some (die w)
+    | _, _, _, _, _, _, _ => bad
   | ["ptok-seal", proto, expire, xnonce, key, id, timeout, addrs, c2s, s2c, ud] =>
     match pU64 proto, pU64 expire, pHexN 24 xnonce, pHexN 32 key, pU64 id, pI32 timeout, pAddrs addrs,
           pHexN 32 c2s, pHexN 32 s2c, pUserData ud with
